@@ -147,6 +147,19 @@ Definition compact_ds (cf : cflags) (fl : eqflags) (thr : Z) (order : list uri) 
 Definition compact_crash (cf : cflags) (fl : eqflags) (thr : Z) (order : list uri) (k : nat) (d : dstate) : dstate :=
   apply_flushes cf d (firstn k (plan cf fl thr d order)).
 
+(** A flush is ONE transaction.  If it were split (deletes committed, re-points in a later transaction) a process dying
+    between the two would leave this state: *)
+Definition apply_flush_deletes_only (d : dstate) (g : list instr) : dstate :=
+  {| d_entries := filter (fun e => negb (kmem (key_of e) (del_keys g))) (d_entries d);
+     d_latest := d_latest d; d_next := d_next d |}.
+
+(** a latest pointer that names no existing version *)
+Definition dangling (d : dstate) (id : uri) : bool :=
+  match assoc id (d_latest d) with
+  | Some (t, b) => match find_entry id t b (d_entries d) with Some _ => false | None => true end
+  | None => false
+  end.
+
 (** a writer commits a batch (time [t]) between the snapshot and the [k]-th flush (k < number of flushes,
     0-based: after [k] flushes); the plan is computed from the snapshot [d] *)
 Definition compact_race (cf : cflags) (fl : eqflags) (dm : dup_mode) (thr : Z) (order : list uri)
